@@ -236,6 +236,8 @@ def object_histories(ctx):
     for i in range(len(directed) + n_random):
         n = rng.randint(8, 120)
         dt = rng.choice([0.01, 0.02, 0.005])
+        if i < len(directed):
+            dt = [0.01, 0.02][i % 2]      # directed words: a step for which the object's spectrum is computed on an interpolated record (T_min/20 < dt), whatever the draw
         a = gen.noise_record(rng, n)
         asig = eqsig.AccSignal(a.copy(), dt)
         cur_a = a.copy()
